@@ -38,7 +38,7 @@ func init() {
 	core.Register(&core.Check{
 		ID: "C10", World: "A (authority lifecycle)", Level: "fault_enumeration",
 		Rule: "one evaluation = one rotation executed under a fault plan over the numbered calls it makes to key manager, signer, certificate authority and object store, followed by a fresh-process health probe (sign + verify with the recorded primary) and a fault-free recovery rotation; " +
-			"planned runs sweep EVERY call index x {err-before, err-after(lost ack), crash-after} for every shipped KM x CA x {library, CLI} configuration (quick: after bootstrap; thorough: also after 1 and 2 clean rotations) plus sampled fault pairs; random runs draw plans with per-call rates; " +
+			"planned runs sweep EVERY call index x {err-before, err-after(lost ack), crash-after} for every shipped KM x CA x {library, CLI} configuration (quick: after bootstrap; thorough: also after 1 and 2 clean rotations) plus sampled fault pairs; random runs draw plans with per-call rates, or run a CHAIN of 2-4 rotations each under its own random plan and drawn --overwrite with no recovery in between (faults meeting the leftovers of earlier failed attempts), checked after every rotation; " +
 			"non-trivial = at least one fault fired inside the rotation; distinct by event fingerprint",
 		Exhaustive: "single-fault sweep: every call index of the fault-free rotation x 3 fault kinds, per configuration",
 		Assumptions: []string{
@@ -70,7 +70,7 @@ type c10Head struct {
 
 func drawC10Head(r *core.Run) c10Head {
 	return c10Head{
-		cfg: r.Intn(len(c10Configs), "config"), prerot: r.Intn(3, "pre-rotations"), mode: r.Intn(4, "mode"),
+		cfg: r.Intn(len(c10Configs), "config"), prerot: r.Intn(3, "pre-rotations"), mode: r.Intn(6, "mode"),
 		k: r.Intn(c10MaxK, "k"), kind: r.Intn(3, "kind"), pair: r.Intn(2, "pair?"), k2: r.Intn(c10MaxK, "k2"), kind2: r.Intn(3, "kind2"),
 		rate: r.Intn(3, "rate"), overwrite: r.Bool("overwrite"),
 	}
@@ -81,7 +81,7 @@ func c10Prefix(h c10Head) core.Trace {
 	if h.overwrite {
 		b = 1
 	}
-	return core.Trace{{L: "config", N: len(c10Configs), V: h.cfg}, {L: "pre-rotations", N: 3, V: h.prerot}, {L: "mode", N: 4, V: h.mode},
+	return core.Trace{{L: "config", N: len(c10Configs), V: h.cfg}, {L: "pre-rotations", N: 3, V: h.prerot}, {L: "mode", N: 6, V: h.mode},
 		{L: "k", N: c10MaxK, V: h.k}, {L: "kind", N: 3, V: h.kind}, {L: "pair?", N: 2, V: h.pair}, {L: "k2", N: c10MaxK, V: h.k2}, {L: "kind2", N: 3, V: h.kind2},
 		{L: "rate", N: 3, V: h.rate}, {L: "overwrite", N: 2, V: b}}
 }
@@ -171,6 +171,10 @@ func runC10(r *core.Run) {
 		}
 		return o
 	}
+	if h.mode >= 4 {
+		runC10Chain(r, a, cfg, plan, h, oldPrimary, crashOK)
+		return
+	}
 	switch h.mode {
 	case 1:
 		plan.Mode, plan.K, plan.Kind = 1, h.k, conv(h.kind)
@@ -232,6 +236,63 @@ func runC10(r *core.Run) {
 	if r.Sample == nil {
 		r.Sample = map[string]any{"config": cfg.String(), "pre_rotations": h.prerot, "fault": firstSite, "calls_in_rotation": plan.N,
 			"rotation_result": errClass(rotErr, crashed), "sites": plan.Sites}
+	}
+}
+
+// runC10Chain (random runs only): several rotations in a row, each under its own random fault plan
+// and with a drawn --overwrite, WITHOUT a recovery in between — a fault meets the leftovers of an
+// earlier failed attempt (orphan key versions, unlisted certificate objects, a crashed process).
+// After every rotation the same health and ordering checks apply; at the end the fault-free
+// recovery rotation must succeed.
+func runC10Chain(r *core.Run, a *Authority, cfg Config, plan *seams.FaultPlan, h c10Head, oldPrimary string, crashOK bool) {
+	steps := 2 + r.Intn(3, "chain-steps")
+	firstSite := "fault-free"
+	total := 0
+	var shape []string
+	for i := 0; i < steps; i++ {
+		plan.Mode, plan.RatePct, plan.Max, plan.Fired = 2, []int{2, 8, 25}[r.Intn(3, "chain-rate")], 2, 0
+		plan.Kinds = []seams.Outcome{seams.ErrBefore, seams.ErrAfter}
+		if crashOK {
+			plan.Kinds = append(plan.Kinds, seams.CrashAfter)
+		}
+		ow := r.Bool("chain-overwrite")
+		a.Now = a.Now.Add(24 * time.Hour)
+		rotErr, crashed := a.Rotate(RotArgs{Flags: Flags{Overwrite: ow}})
+		plan.Mode = 0
+		fired := plan.Fired
+		total += fired
+		site := "fault-free"
+		if fired > 0 {
+			site = r.FirstFaultSite()
+			if firstSite == "fault-free" {
+				firstSite = site
+			}
+		}
+		shape = append(shape, fmt.Sprintf("rot(ow=%v)->%s", ow, errClass(rotErr, crashed)))
+		when := fmt.Sprintf("after rotation %d of a chain [%s]", i+1, strings.Join(shape, " "))
+		for _, d := range a.Destroys {
+			if d.Name == oldPrimary && !d.AfterFinalizeOK {
+				r.Fail("destroy-before-durable", "rotate.Key/chain", "%s %s: DestroyKeyVersion(%q) was called before the certificate authority's Finalize returned success (fault: %s)", cfg, when, d.Name, site)
+			}
+		}
+		c10Health(r, a, cfg, when, firstSite, "chain:")
+		if hh := a.CheckHealth(a.Now); hh.Primary != "" {
+			oldPrimary = hh.Primary
+		}
+	}
+	r.Probe("chain")
+	if total > 1 {
+		r.Probe("chain-with-several-faulted-rotations")
+	}
+	r.Eval(r.Fingerprint(), total > 0)
+	a.Now = a.Now.Add(24 * time.Hour)
+	if err, _ := a.Rotate(RotArgs{Flags: Flags{Overwrite: true}}); err != nil {
+		r.Fail("recovery-rotation-fails", "chain:"+firstSite, "%s: after the chain [%s] (first fault %s), a fault-free `rotate --overwrite` fails: %v", cfg, strings.Join(shape, " "), firstSite, err)
+	}
+	c10Health(r, a, cfg, "after the recovery rotation of a chain", firstSite, "chain-recovery:")
+	r.State(fmt.Sprintf("%s|chain|%s", cfg, strings.Join(shape, ",")))
+	if r.Sample == nil {
+		r.Sample = map[string]any{"config": cfg.String(), "chain": shape, "first_fault": firstSite}
 	}
 }
 
